@@ -52,6 +52,7 @@ static unsigned enc_op(const char *op) {
     if (!strcmp(op, "recon")) { static uint8_t buf[W * H * 3]; rb.size = sizeof rb; rb.p_buffer = buf; rb.n_alloc_len = sizeof buf; unsigned r = svt_av1_get_recon(enc, &rb); return r; }
     if (!strcmp(op, "recon_nullh")) { static uint8_t buf[W * H * 3]; rb.p_buffer = buf; rb.n_alloc_len = sizeof buf; return svt_av1_get_recon(NULL, &rb); }
     if (!strcmp(op, "recon_nullbuf")) return svt_av1_get_recon(enc, NULL);
+    if (!strcmp(op, "wait")) { usleep(1500000); return 0; }   /* not an API call: lets the pipeline finish what was submitted */
     if (!strcmp(op, "deinit")) return svt_av1_enc_deinit(enc);
     if (!strcmp(op, "deinit_nullh")) return svt_av1_enc_deinit(NULL);
     if (!strcmp(op, "dh")) { unsigned r = svt_av1_enc_deinit_handle(enc); enc = NULL; return r; }
